@@ -278,15 +278,31 @@ fn check_inbound(hub: &Hub, received: &[u64], l: &mut Local, driver: &str, repla
         }
         return;
     }
-    // every received token must be expected, in order; the last few expected may be missing only if the loop ended first
-    let mut ei = 0;
+    // The threaded client calls listeners synchronously on its loop thread, so what was surfaced is, per
+    // connection, exactly a prefix of what was completely delivered on that connection (the tail may be
+    // missing only because the loop ended first), and connections follow each other. Tokens are unique
+    // and carry their connection: token = 1 + connection * 1000 + position.
+    let mut per_conn: Vec<Vec<u64>> = Vec::new();
+    for p in pipes.iter() {
+        let s = p.lock().unwrap();
+        let mut d = rf::StreamDecoder::new(s.v5);
+        let mut v = Vec::new();
+        for f in d.feed(&s.s2c_delivered) {
+            if let rf::Packet::Publish(pb) = f.packet { if let Some(t) = payload_token(&pb.payload) { v.push(t); } }
+        }
+        per_conn.push(v);
+    }
+    let mut next_pos: Vec<usize> = vec![0; per_conn.len()];
+    let mut last_conn = 0usize;
     for t in received {
-        while ei < expected.len() && expected[ei] != *t { ei += 1; }
-        if ei == expected.len() {
-            l.violation("C13.R4-inbound-order-or-content", &[("driver", driver.into())], format!("received token {} which was not delivered next in order (expected sequence {:?}, received {:?})", t, &expected[..usize::min(12, expected.len())], &received[..usize::min(12, received.len())]), replay.clone());
+        let c = ((*t - 1) / 1000) as usize;
+        let ok = c < per_conn.len() && c >= last_conn && next_pos[c] < per_conn[c].len() && per_conn[c][next_pos[c]] == *t;
+        if !ok {
+            l.violation("C13.R4-inbound-order-or-content", &[("driver", driver.into())], format!("received token {} but on connection {} the next completely delivered publish is {:?} (delivered {:?}, received {:?})", t, c, per_conn.get(c).and_then(|v| v.get(next_pos.get(c).copied().unwrap_or(0))), per_conn.get(c).map(|v| &v[..usize::min(12, v.len())]), &received[..usize::min(12, received.len())]), replay.clone());
             return;
         }
-        ei += 1;
+        next_pos[c] += 1;
+        last_conn = c;
     }
 }
 
@@ -302,25 +318,117 @@ fn ready_now<F: std::future::Future + Unpin>(f: &mut F) -> bool {
 
 fn is_channel_failure(e: &GneissError) -> bool { matches!(e, GneissError::OperationChannelFailure(_)) }
 
-fn threaded_scenario(idx: u64, r: &mut Rng, l: &mut Local) {
+
+/* ---------------------------------------------------------------------------------------- */
+/* websocket framing adapter: the real threaded client over the websocket stream wrapper      */
+/* ---------------------------------------------------------------------------------------- */
+
+/// Sits between tungstenite (client role, as created by the `ws_wrap` facade) and the scripted pipe:
+/// client frames are unmasked and their payload handed to the pipe's mini-broker; the broker's bytes are
+/// cut into binary messages of arbitrary size, several of which may be waiting at once.
+pub struct WsAdapter { inner: MemStream, inbuf: Vec<u8>, out: VecDeque<u8>, rng: Rng }
+
+impl WsAdapter {
+    fn new(inner: MemStream, seed: u64) -> WsAdapter { WsAdapter { inner, inbuf: Vec::new(), out: VecDeque::new(), rng: Rng::new(seed) } }
+}
+
+/// removes one complete (possibly masked) frame from the front of `buf`
+fn ws_take_frame(buf: &mut Vec<u8>) -> Option<(u8, Vec<u8>)> {
+    if buf.len() < 2 { return None; }
+    let op = buf[0] & 0x0F;
+    let masked = buf[1] & 0x80 != 0;
+    let mut len = (buf[1] & 0x7F) as usize;
+    let mut i = 2;
+    if len == 126 { if buf.len() < i + 2 { return None; } len = u16::from_be_bytes([buf[i], buf[i + 1]]) as usize; i += 2; }
+    else if len == 127 { if buf.len() < i + 8 { return None; } len = u64::from_be_bytes(buf[i..i + 8].try_into().ok()?) as usize; i += 8; }
+    let mut mask = [0u8; 4];
+    if masked { if buf.len() < i + 4 { return None; } mask.copy_from_slice(&buf[i..i + 4]); i += 4; }
+    if buf.len() < i + len { return None; }
+    let mut payload = buf[i..i + len].to_vec();
+    if masked { for (k, b) in payload.iter_mut().enumerate() { *b ^= mask[k % 4]; } }
+    buf.drain(..i + len);
+    Some((op, payload))
+}
+
+impl Read for WsAdapter {
+    fn read(&mut self, buf: &mut [u8]) -> std::io::Result<usize> {
+        if self.out.is_empty() {
+            let mut st = self.inner.state.lock().unwrap();
+            let messages = self.rng.range(1, 3);
+            for m in 0..messages {
+                let want = *self.rng.pick(&[1usize, 2, 5, 100, 4096, 5000, 20_000]);
+                let mut tmp = vec![0u8; want];
+                match st.do_read(&mut tmp) {
+                    Ok(0) => { if m == 0 { return Ok(0); } else { break; } }
+                    Ok(n) => { self.out.extend(ws_frame(2, &tmp[..n])); }
+                    Err(e) => { if m == 0 { return Err(e); } else { break; } }
+                }
+            }
+        }
+        let k = usize::min(usize::min(buf.len(), self.out.len()), *self.rng.pick(&[1usize, 3, 100, 100_000]));
+        for i in 0..k { buf[i] = self.out.pop_front().unwrap(); }
+        Ok(k)
+    }
+}
+
+impl Write for WsAdapter {
+    fn write(&mut self, buf: &[u8]) -> std::io::Result<usize> {
+        let mut st = self.inner.state.lock().unwrap();
+        st.write_calls += 1;
+        if let Fault::WriteError(n) = st.fault { if st.c2s_all.len() >= n { return Err(std::io::Error::new(std::io::ErrorKind::BrokenPipe, "scripted write error")); } }
+        if buf.is_empty() { return Ok(0); }
+        let stall = st.stall_pct;
+        if st.rng.chance(stall, 100) { st.would_blocks += 1; return Err(std::io::Error::new(std::io::ErrorKind::WouldBlock, "scripted stall")); }
+        let max = st.write_chunk_max as u64;
+        let k = usize::min(buf.len(), st.rng.range(1, max) as usize);
+        if k < buf.len() { st.partial_writes += 1; }
+        self.inbuf.extend_from_slice(&buf[..k]);
+        while let Some((op, payload)) = ws_take_frame(&mut self.inbuf) {
+            match op {
+                0 | 2 => st.on_bytes(&payload),
+                8 => { st.eof = true; }
+                _ => {}
+            }
+        }
+        Ok(k)
+    }
+    fn flush(&mut self) -> std::io::Result<()> { Ok(()) }
+}
+
+fn threaded_client_on<T, F>(copts: MqttClientOptions, connect: ConnectOptions, topts: ThreadedOptions, f: F) -> SyncClientHandle
+where T: Read + Write + Send + Sync + 'static, F: Fn() -> Result<T, GneissError> + Send + Sync + 'static {
+    new_threaded_client(copts, connect, topts, Arc::new(f))
+}
+
+fn threaded_scenario(idx: u64, r: &mut Rng, l: &mut Local) { threaded_scenario_on(idx, r, l, false) }
+
+fn threaded_ws_scenario(idx: u64, r: &mut Rng, l: &mut Local) { threaded_scenario_on(idx, r, l, true) }
+
+fn threaded_scenario_on(idx: u64, r: &mut Rng, l: &mut Local, ws: bool) {
     let v5 = r.chance(2, 3);
     let hub = Arc::new(Hub { pipes: Mutex::new(Vec::new()), seed: r.next_u64(), v5, plan: Mutex::new(Rng::new(r.next_u64())), refuse_pct: *r.pick(&[0u64, 20]), fault_pct: *r.pick(&[0u64, 0, 30]), inbound: *r.pick(&[0usize, 3, 10]) });
     let mut cs = ConnectSpec::default();
     cs.client_id = Some("thr".into());
     cs.keep_alive = Some(1200);
     let hub2 = hub.clone();
-    let factory: Arc<dyn Fn() -> Result<MemStream, GneissError> + Send + Sync> = Arc::new(move || hub2.connect());
     let mut tb = ThreadedOptions::builder();
     tb.with_idle_service_sleep(Duration::from_millis(1));
-    let replay = json!({"kind": "real-driver", "driver": "threaded", "index": idx, "v5": v5});
-    let client = new_threaded_client(client_options(r, v5), build_connect_options(&cs), tb.build(), factory);
+    let driver: &'static str = if ws { "threaded-websocket" } else { "threaded" };
+    let replay = json!({"kind": "real-driver", "driver": driver, "index": idx, "v5": v5});
+    let copts = client_options(r, v5);
+    let client = if ws {
+        let aseed = r.next_u64();
+        threaded_client_on(copts, build_connect_options(&cs), tb.build(), move || hub2.connect().map(|m| gv::ws_wrap(WsAdapter::new(m, aseed))))
+    } else {
+        threaded_client_on(copts, build_connect_options(&cs), tb.build(), move || hub2.connect())
+    };
     let received: Arc<Mutex<Vec<u64>>> = Arc::new(Mutex::new(Vec::new()));
     let rc = received.clone();
     let listener: ClientEventListener = Arc::new(move |ev: Arc<ClientEvent>| {
         if let ClientEvent::PublishReceived(p) = &*ev { if let Some(t) = p.publish.payload().and_then(payload_token) { rc.lock().unwrap().push(t); } }
     });
     if client.start(Some(listener)).is_err() { return; }
-    l.count("c13.threaded_scenarios");
+    l.count(if ws { "c13.threaded_ws_scenarios" } else { "c13.threaded_scenarios" });
 
     let n = r.range(1, 12) as usize;
     let ops = gen_ops(r, n, 1);
@@ -403,16 +511,16 @@ fn threaded_scenario(idx: u64, r: &mut Rng, l: &mut Local) {
     }
     let unresolved: Vec<u64> = pending.iter().map(|(t, _)| *t).collect();
     if !unresolved.is_empty() {
-        l.violation("C13.R5-operation-never-resolves", &[("driver", "threaded".into()), ("submitted", if unresolved.iter().all(|t| *t >= 1000) { "during-or-after-close".into() } else { "before-close".to_string() })], format!("the event loop has exited (a probe submit fails with OperationChannelFailure) but {} operations have no result and can never get one: tags {:?}", unresolved.len(), &unresolved[..usize::min(8, unresolved.len())]), replay.clone());
+        l.violation("C13.R5-operation-never-resolves", &[("driver", driver.into()), ("submitted", if unresolved.iter().all(|t| *t >= 1000) { "during-or-after-close".into() } else { "before-close".to_string() })], format!("the event loop has exited (a probe submit fails with OperationChannelFailure) but {} operations have no result and can never get one: tags {:?}", unresolved.len(), &unresolved[..usize::min(8, unresolved.len())]), replay.clone());
     }
     let hits = callback_hits.lock().unwrap();
-    for t in callback_tags { match hits.get(&t).copied().unwrap_or(0) { 1 => {} 0 => l.violation("C13.R5-operation-never-resolves", &[("driver", "threaded".into()), ("submitted", "callback".into())], format!("callback of op {} never invoked although the loop is gone", t), replay.clone()), n => l.violation("C13.R6-result-delivered-twice", &[("driver", "threaded".into())], format!("callback of op {} invoked {} times", t, n), replay.clone()) } }
+    for t in callback_tags { match hits.get(&t).copied().unwrap_or(0) { 1 => {} 0 => l.violation("C13.R5-operation-never-resolves", &[("driver", driver.into()), ("submitted", "callback".into())], format!("callback of op {} never invoked although the loop is gone", t), replay.clone()), n => l.violation("C13.R6-result-delivered-twice", &[("driver", driver.into())], format!("callback of op {} invoked {} times", t, n), replay.clone()) } }
     drop(hits);
-    let moved = check_streams(&hub, &expected, l, "threaded", &replay);
+    let moved = check_streams(&hub, &expected, l, driver, &replay);
     let rec = received.lock().unwrap().clone();
-    check_inbound(&hub, &rec, l, "threaded", &replay);
+    check_inbound(&hub, &rec, l, driver, &replay);
     l.nontrivial(crate::rng::fnv(format!("thr|{}|{}|{}", idx, moved, rec.len()).as_bytes()));
-    if l.samples.len() < 2 { l.sample(json!({"driver": "threaded", "v5": v5, "operations": n, "connections": hub.pipes.lock().unwrap().len(), "bytes_to_transport": moved, "inbound_received": rec.len(), "stop_before_close": use_stop_first})); }
+    if l.samples.len() < 2 { l.sample(json!({"driver": driver, "v5": v5, "operations": n, "connections": hub.pipes.lock().unwrap().len(), "bytes_to_transport": moved, "inbound_received": rec.len(), "stop_before_close": use_stop_first})); }
 }
 
 fn tokio_scenario(idx: u64, r: &mut Rng, l: &mut Local) {
@@ -742,20 +850,21 @@ pub fn run_c13(tier: &str, seed: u64) -> i32 {
     let quick = tier != "thorough";
     let plan = FuzzPlan {
         id: "C13", level: "exploration", cases: std::env::var("VERIF_C13_CASES").ok().and_then(|v| v.parse().ok()).unwrap_or(if quick { 2_400 } else { 60_000 }),
-        rule: "four scenario families per index class: (a) the real threaded client and (b) the real tokio client created through the public new_*_client functions on a scripted in-memory transport (writes accept 1..n bytes or would-block, reads return any fragment, EOF / read error / write error injected, connections refused) with a reference mini-broker behind it: the bytes the transport received must decode as a well-formed MQTT stream whose publishes carry exactly the submitted payloads, inbound publishes must be surfaced in delivery order, and after stop/close racing with submitting threads/tasks every result receiver / future / callback must be resolved exactly once once the event loop is provably gone (a probe submit fails with OperationChannelFailure); (c) a >4096-byte publish on an idle connection; (d) the threaded websocket stream wrapper over an in-memory pipe with frames of any size, several per underlying read, control frames in between and would-block on the underlying write; non-trivial = a scenario reached its oracle; distinct = distinct (family, index, bytes moved)".into(),
+        rule: "four scenario families per index class: (a) the real threaded client and (b) the real tokio client created through the public new_*_client functions on a scripted in-memory transport (writes accept 1..n bytes or would-block, reads return any fragment, EOF / read error / write error injected, connections refused) with a reference mini-broker behind it: the bytes the transport received must decode as a well-formed MQTT stream whose publishes carry exactly the submitted payloads, inbound publishes must be surfaced in delivery order, and after stop/close racing with submitting threads/tasks every result receiver / future / callback must be resolved exactly once once the event loop is provably gone (a probe submit fails with OperationChannelFailure); (c) a >4096-byte publish on an idle connection; (a') the real threaded client over the websocket stream wrapper (ws_wrap facade) with a framing adapter in front of the same scripted pipe: binary messages of any size, several waiting at once, masked client frames split by partial writes; (d) the threaded websocket stream wrapper alone over an in-memory pipe with frames of any size, several per underlying read, control frames in between and would-block on the underlying write; non-trivial = a scenario reached its oracle; distinct = distinct (family, index, bytes moved)".into(),
         assumptions: vec!["wall clock is used only as a watchdog (counted, never a verdict) except for the corroboration rule C13.R7, whose logical counterpart is C08.R1/R2".into(), "the websocket wrapper is reached through the verif facade (ws_wrap)".into()],
-        gates: vec![("c13.close_races_judged", if quick { 500 } else { 12_000 }), ("c13.publishes_verified", if quick { 300 } else { 8_000 }), ("c13.ws_scenarios", if quick { 400 } else { 10_000 }), ("c13.ws_peer_gone_after_last_message", if quick { 100 } else { 2_500 }), ("c13.results_checked", if quick { 2_500 } else { 60_000 })],
+        gates: vec![("c13.close_races_judged", if quick { 500 } else { 12_000 }), ("c13.publishes_verified", if quick { 300 } else { 8_000 }), ("c13.ws_scenarios", if quick { 400 } else { 10_000 }), ("c13.threaded_ws_scenarios", if quick { 200 } else { 5_000 }), ("c13.ws_peer_gone_after_last_message", if quick { 100 } else { 2_500 }), ("c13.results_checked", if quick { 2_500 } else { 60_000 })],
         budget_s: if quick { 900 } else { 3600 },
     };
     let only = std::env::var("VERIF_C13_ONLY").ok();
     let thorough = !quick;
     let mut rep = cases_report(plan, tier, seed, move |idx, r, l| {
         if let Some(o) = &only {
-            match o.as_str() { "threaded" => threaded_scenario(idx, r, l), "tokio" => tokio_scenario(idx, r, l), "ws" => ws_scenario(idx, r, l), _ => large_publish_scenario(idx, r, l) }
+            match o.as_str() { "threaded" => threaded_scenario(idx, r, l), "threaded-ws" => threaded_ws_scenario(idx, r, l), "tokio" => tokio_scenario(idx, r, l), "ws" => ws_scenario(idx, r, l), _ => large_publish_scenario(idx, r, l) }
             return;
         }
         match idx % 8 {
-            0 | 1 | 2 => threaded_scenario(idx, r, l),
+            0 | 1 => threaded_scenario(idx, r, l),
+            2 => threaded_ws_scenario(idx, r, l),
             3 | 4 | 5 => tokio_scenario(idx, r, l),
             6 => { if idx % 64 == 6 { large_publish_scenario(idx, r, l) } else { ws_scenario(idx, r, l) } }
             _ => ws_scenario(idx, r, l),
